@@ -313,7 +313,7 @@ func (t *tr) block(b *ssa.BasicBlock, heaps map[string]string) {
 				t.oblige("safe", t.nameAt("nil", x.Pos(), pickSelX), R, fmt.Sprintf("(not (= (lref %s) 0))", p), x.Pos())
 			}
 			st := x.X.Type().Underlying().(*types.Pointer).Elem().Underlying().(*types.Struct)
-			t.define(x, "Loc", locPlus(p, fieldOffset(st, x.Field)))
+			t.define(x, "Loc", t.fieldLoc(p, x.X.Type(), fieldOffset(st, x.Field)))
 		case *ssa.Field:
 			st := x.X.Type().Underlying().(*types.Struct)
 			off := fieldOffset(st, x.Field)
@@ -335,7 +335,7 @@ func (t *tr) block(b *ssa.BasicBlock, heaps map[string]string) {
 			case *types.Slice:
 				s := t.v(x.X)
 				t.oblige("safe", t.nameAt("index", x.Pos(), pickIndex), R, fmt.Sprintf("(and (<= 0 %s) (< %s (slen %s)))", idx, idx, s), x.Pos())
-				t.define(x, "Loc", sliceElemLoc(s, idx, stride(u.Elem())))
+				t.define(x, "Loc", sliceElemLoc(s, idx, stride(u.Elem()), t.sliceTagConst(x.X.Type())))
 			default:
 				t.opaque(x, "IndexAddr on "+x.X.Type().String())
 			}
